@@ -76,8 +76,10 @@ let n_of_hex (s : string) : coq_N =
     let v = int_of_string ("0x" ^ St.make 1 c) in
     bits := (v land 1 = 1) :: (v land 2 = 2) :: (v land 4 = 4) :: (v land 8 = 8) :: !bits) s;
   n_of_bits !bits
-let n_of_int (i : int) : coq_N = n_of_hex (Printf.sprintf "%x" i)
-let int_of_n (n : coq_N) : int = int_of_string ("0x" ^ hex_of_n n)
+let rec pos_of_int (i : int) : positive = if i = 1 then Coq_xH else if i land 1 = 0 then Coq_xO (pos_of_int (i lsr 1)) else Coq_xI (pos_of_int (i lsr 1))
+let n_of_int (i : int) : coq_N = if i <= 0 then N0 else Npos (pos_of_int i)
+let rec int_of_pos (p : positive) : int = match p with Coq_xH -> 1 | Coq_xO q -> 2 * int_of_pos q | Coq_xI q -> 2 * int_of_pos q + 1
+let int_of_n (n : coq_N) : int = match n with N0 -> 0 | Npos p -> int_of_pos p
 let big s = n_of_hex (Printf.sprintf "%x" (int_of_string s))
 let hex_of_z = function Z0 -> "0" | Zpos p -> hex_of_n (Npos p) | Zneg p -> "-" ^ hex_of_n (Npos p)
 
@@ -525,6 +527,127 @@ let c09 ic =
     | _ -> failwith ("c09: bad line " ^ line)
   done with End_of_file -> ())
 
+
+(* ---------------- C04: emitted glue under the mini-Wasm semantics vs wasmtime ---------------- *)
+let char_of_ascii (Ascii.Ascii (b0, b1, b2, b3, b4, b5, b6, b7)) : char =
+  let v b k = if b then 1 lsl k else 0 in Char.chr (v b0 0 + v b1 1 + v b2 2 + v b3 3 + v b4 4 + v b5 5 + v b6 6 + v b7 7)
+let string_of_coq (s : String.string) : string =
+  let b = Buffer.create 32 in
+  let rec go = function String.EmptyString -> () | String.String (c, r) -> Buffer.add_char b (char_of_ascii c); go r in
+  go s; Buffer.contents b
+
+type pstate = { resp : string list list; plog : string list }
+
+let c04 ic =
+  let memsz = 65536 in
+  let id = ref 0 and seed = ref 0 in
+  let ginit a = ((a * 7 + !seed * 3) land 0xff) and pinit a = ((a * 13 + !seed * 5 + 1) land 0xff) in
+  let mk f = { WasmMini.msize = n_of_int memsz; WasmMini.mget = (fun a -> n_of_int (f (int_of_n a))) } in
+  let funcs = GlueGen.funcs in
+  let name_of_import k = (match L.nth funcs k with WasmMini.Import (_, n, _, _) -> string_of_coq n | _ -> "?") in
+  ignore name_of_import;
+  let results_of name = (let rec go = function [] -> [] | WasmMini.Import (_, n, _, r) :: t -> if string_of_coq n = name then r else go t | _ :: t -> go t in go funcs) in
+  let hexv v = match v with WasmMini.I32 n | WasmMini.I64 n | WasmMini.F64 n -> hex_of_n n in
+  let mkval t h = let n = n_of_hex h in match t with WasmMini.TI32 -> WasmMini.I32 n | WasmMini.TI64 -> WasmMini.I64 n | WasmMini.TF64 -> WasmMini.F64 n in
+  let oracle (name : String.string) (args : WasmMini.coq_val list) (pm : WasmMini.mem) (ps : pstate) =
+    let nm = string_of_coq name in
+    match ps.resp with
+    | [] -> None
+    | r :: rest ->
+        let entry = Printf.sprintf "%s(%s)" nm (St.concat "," (L.map hexv args)) in
+        let entry = if nm = "_shopify_function_input_get_obj_prop" then
+            (match args with [_; b; l] -> let b = int_of_n (match b with WasmMini.I32 n -> n | _ -> N0) and l = int_of_n (match l with WasmMini.I32 n -> n | _ -> N0) in
+               if b + l <= memsz then entry ^ "<" ^ hex_of_list (L.init l (fun i -> int_of_n (pm.WasmMini.mget (n_of_int (b + i))))) ^ ">" else entry
+             | _ -> entry) else entry in
+        let pm' = if nm = "_shopify_function_log_new_utf8_str" && L.length r = 6 then begin
+            let area = int_of_string ("0x" ^ L.hd r) in
+            let words = Array.of_list (L.map (fun h -> int_of_string ("0x" ^ h)) (L.tl r)) in
+            if area + 20 <= memsz then
+              { WasmMini.msize = pm.WasmMini.msize; WasmMini.mget = (fun a -> let ai = int_of_n a in
+                  if ai >= area && ai < area + 20 then n_of_int ((words.((ai - area) / 4) lsr (8 * ((ai - area) mod 4))) land 0xff) else pm.WasmMini.mget a) }
+            else pm end else pm in
+        let res = (match results_of nm with [] -> [] | t :: _ -> [mkval t (L.hd r)]) in
+        Some ((res, pm'), { resp = rest; plog = ps.plog @ [entry] }) in
+  let diff (m : WasmMini.mem) init =
+    let out = ref [] and a = ref 0 in
+    let get i = int_of_n (m.WasmMini.mget (n_of_int i)) in
+    while !a < memsz do
+      if get !a <> init !a then begin
+        let st = !a in let b = Buffer.create 16 in
+        while !a < memsz && get !a <> init !a do Buffer.add_string b (Printf.sprintf "%02x" (get !a)); incr a done;
+        out := Printf.sprintf "%x:%s" st (Buffer.contents b) :: !out end
+      else incr a done;
+    if !out = [] then "-" else St.concat "," (L.rev !out) in
+  let widx name = (let rec go = function [] -> None | (n, k) :: t -> if string_of_coq n = name then Some k else go t in go GlueGen.wrappers) in
+  let psig name = (let rec go = function [] -> ([], []) | (n, s) :: t -> if string_of_coq n = name then s else go t in go GlueGen.api_sigs) in
+  let bytes_g a n = L.init n (fun i -> ginit (a + i)) in
+  let region a bs = if bs = [] then [] else [(a, bs)] in
+  (* expected changes as a sorted list of (addr, bytes), dropping bytes equal to the initial contents, as the harness's diff does *)
+  let render init (regs : (int * int list) list) =
+    let tbl = Hashtbl.create 64 in
+    L.iter (fun (a, bs) -> L.iteri (fun i b -> Hashtbl.replace tbl (a + i) b) bs) regs;
+    let addrs = L.sort compare (Hashtbl.fold (fun k v acc -> if v <> init k then k :: acc else acc) tbl []) in
+    let rec grp acc cur = function
+      | [] -> L.rev (match cur with None -> acc | Some (st, bs) -> (st, L.rev bs) :: acc)
+      | a :: t -> (match cur with
+          | Some (st, bs) when st + L.length bs = a -> grp acc (Some (st, Hashtbl.find tbl a :: bs)) t
+          | Some (st, bs) -> grp ((st, L.rev bs) :: acc) (Some (a, [Hashtbl.find tbl a])) t
+          | None -> grp acc (Some (a, [Hashtbl.find tbl a])) t) in
+    let gs = grp [] None addrs in
+    if gs = [] then "-" else St.concat "," (L.map (fun (a, bs) -> Printf.sprintf "%x:%s" a (hex_of_list bs)) gs) in
+  (try while true do
+    let line = input_line ic in
+    match split line with
+    | "CASE" :: k :: sd :: _ -> id := int_of_string k; seed := int_of_string sd
+    | ["END"] | [] -> ()
+    | "CALL" :: _via :: name :: rest ->
+        let (argstr, resp) = (match rest with a :: ";" :: r -> (a, St.concat " " r) | a :: [] -> (a, "") | a :: _ -> (a, "") | [] -> ("-", "")) in
+        let args = if argstr = "-" then [] else St.split_on_char ',' argstr in
+        let resps = L.filter (fun x -> x <> []) (L.map (fun r -> L.filter (fun x -> x <> "") (St.split_on_char ',' (St.trim r))) (St.split_on_char '|' resp)) in
+        let (ptys, rtys) = psig name in
+        let vals = L.map2 mkval ptys args in
+        (* ---- model: the regenerated glue under the mini-Wasm semantics *)
+        (match widx name with
+         | None -> Printf.printf "M %d NOWRAPPER\n" !id
+         | Some k ->
+            (match WasmMini.invoke oracle funcs (nat_of_int 200) k vals (mk ginit) (mk pinit) { resp = resps; plog = [] } with
+             | None -> Printf.printf "M %d TRAP\n" !id
+             | Some s ->
+                 let ret = (match L.rev s.WasmMini.stack with [] -> "-" | l -> St.concat "," (L.map hexv l)) in
+                 Printf.printf "M %d RET %s G %s P %s LOG %s\n" !id ret (diff s.WasmMini.g ginit) (diff s.WasmMini.p pinit)
+                   (if s.WasmMini.pstate.plog = [] then "-" else St.concat ";" s.WasmMini.pstate.plog)));
+        (* ---- spec: what the public ABI says the call does *)
+        let ai i = int_of_string ("0x" ^ L.nth args i) in
+        let r1 i j = int_of_string ("0x" ^ L.nth (L.nth resps i) j) in
+        let low = "_" ^ name in
+        let inb a n = a + n <= memsz in
+        let sline = (match name with
+          | "shopify_function_input_read_utf8_str" ->
+              let out = ai 1 and len = ai 2 and addr = r1 0 0 in
+              if not (inb out len && inb addr len) then "TRAP" else
+              Printf.sprintf "RET - G %s P - LOG _shopify_function_input_get_utf8_str_addr(%s)" (render ginit (region out (L.init len (fun i -> pinit (addr + i))))) (L.nth args 0)
+          | "shopify_function_input_get_obj_prop" ->
+              let ptr = ai 1 and len = ai 2 and blk = r1 0 0 in
+              if not (inb ptr len && inb blk len) then "TRAP" else
+              Printf.sprintf "RET %s G - P %s LOG _shopify_function_alloc(%s);%s(%s,%x,%s)<%s>" (L.nth (L.nth resps 1) 0) (render pinit (region blk (bytes_g ptr len)))
+                (L.nth args 2) low (L.nth args 0) blk (L.nth args 2) (hex_of_list (bytes_g ptr len))
+          | "shopify_function_output_new_utf8_str" | "shopify_function_intern_utf8_str" ->
+              let ptr = ai 0 and len = ai 1 in let packed = r1 0 0 in let hi = packed lsr 32 and lo = packed land 0xffffffff in
+              let writes = name = "shopify_function_intern_utf8_str" || hi = 0 in   (* a rejected string write writes nothing *)
+              if writes && not (inb ptr len && inb lo len) then "TRAP" else
+              Printf.sprintf "RET %x G - P %s LOG %s(%s)" hi (if writes then render pinit (region lo (bytes_g ptr len)) else "-") low (L.nth args 1)
+          | "shopify_function_log_new_utf8_str" ->
+              let ptr = ai 0 and _len = ai 1 in
+              let area = r1 0 0 and so = r1 0 1 and d1 = r1 0 2 and n1 = r1 0 3 and d2 = r1 0 4 and n2 = r1 0 5 in
+              if not (inb (ptr + so) (n1 + n2) && inb d1 n1 && (n2 = 0 || inb d2 n2) && inb area 20) then "TRAP" else
+              let words = L.concat (L.map (fun w -> [w land 0xff; (w lsr 8) land 0xff; (w lsr 16) land 0xff; (w lsr 24) land 0xff]) [so; d1; n1; d2; n2]) in
+              Printf.sprintf "RET - G - P %s LOG %s(%s)" (render pinit (region area words @ region d1 (bytes_g (ptr + so) n1) @ (if n2 > 0 then region d2 (bytes_g (ptr + so + n1) n2) else []))) low (L.nth args 1)
+          | _ ->
+              Printf.sprintf "RET %s G - P - LOG %s(%s)" (if rtys = [] then "-" else L.nth (L.nth resps 0) 0) low (St.concat "," args)) in
+        Printf.printf "S %d %s\n" !id sline
+    | _ -> failwith ("c04: bad line " ^ line)
+  done with End_of_file -> ())
+
 let () =
   let comp = Sys.argv.(1) in
   let ic = if Array.length Sys.argv > 2 then open_in Sys.argv.(2) else stdin in
@@ -534,6 +657,7 @@ let () =
   | "dectree" -> dectree ic
   | "c12" | "c13" | "c14" -> ctxrun ic
   | "c09" -> c09 ic
+  | "c04" -> c04 ic
   | "c05" -> c05 ic
   | "c06" -> c06 ic
   | "c10" -> c10 ic
